@@ -9,6 +9,7 @@ pub mod c05;
 pub mod c08;
 pub mod c12;
 pub mod c13;
+pub mod c14;
 pub mod c16;
 pub mod c19;
 
@@ -22,6 +23,7 @@ pub fn dispatch(id: &str, tier: Tier, seed: u64, replay: Option<PathBuf>) -> i32
         "C08" => run(&c08::C08, tier, seed, replay),
         "C12" => run(&c12::C12, tier, seed, replay),
         "C13" => run(&c13::C13, tier, seed, replay),
+        "C14" => run(&c14::C14, tier, seed, replay),
         "C16" => run(&c16::C16, tier, seed, replay),
         "C19" => run(&c19::C19, tier, seed, replay),
         _ => {
